@@ -54,7 +54,16 @@ def run(ck, tier, which=('scalar', 'element')):
                     except ValueError as e:
                         ck.record(tag, 'after %s: %s vs fresh value not comparable (%s)' % (what, nm, e), 'unknown', 'symx', 0.0, 'unsat')
                 else:
-                    ck.record(tag, 'after %s: %s differs in shape from the observer on a fresh value' % (what, nm), 'sat', 'symx', 0.0, 'unsat')
+                    # different shapes (e.g. result lengths): only a finding if the path is feasible at all
+                    low = (BVLower if kind == 'hs' else PolyLower)(r)
+                    try:
+                        low.emit(p['pc'])
+                        res = smt.check(low.all() + '\n' + '\n'.join('(assert n%d)' % c for c in p['pc']), timeout=60)
+                        st_ = res.status
+                    except ValueError:
+                        st_ = 'sat'
+                    ok = st_ == 'unsat'
+                    ck.record(tag, 'after %s: %s differs in shape from the observer on a fresh value%s' % (what, nm, ' (path infeasible)' if ok else ''), 'unsat' if ok else 'sat', 'symx', 0.0, 'unsat')
                 if not ok:
                     failures.append((what, nm, m, kind))
     return failures
